@@ -115,13 +115,15 @@ Housekeeping ==
   /\ UNCHANGED <<now, issued, wire, stopped>>
   /\ Log([act |-> "Housekeeping"])
 
-Stop(sendEnd) ==
-  /\ Go
+\* lost: endpoints whose answer to the SubscriptionEnd message never reaches the provider (the message itself arrives):
+\* still exactly one SubscriptionEnd per live subscription
+Stop(sendEnd, lost) ==
+  /\ Go /\ (~sendEnd => lost = {})
   /\ wire' = wire \o [n \in 1..(IF sendEnd THEN Cardinality({i \in Ids : Alive(i)}) ELSE 0) |-> "End"]
   /\ subs' = [i \in Ids |-> NoSub]
   /\ stopped' = TRUE
   /\ UNCHANGED <<now, issued, fate>>
-  /\ Log([act |-> "Stop", sendEnd |-> sendEnd, ends |-> IF sendEnd THEN {i \in Ids : Alive(i)} ELSE {}])
+  /\ Log([act |-> "Stop", sendEnd |-> sendEnd, lost |-> lost, ends |-> IF sendEnd THEN {i \in Ids : Alive(i)} ELSE {}])
 
 Next == \/ \E c \in Clients, f \in Filters, req \in ReqVals, e \in BOOLEAN : Subscribe(c, f, req, e)
         \/ \E i \in Ids, req \in ReqVals : Renew(i, req)
@@ -130,7 +132,7 @@ Next == \/ \E c \in Clients, f \in Filters, req \in ReqVals, e \in BOOLEAN : Sub
         \/ \E a \in Actions, fail \in SUBSET Clients, k \in {"http_error", "refused", "timeout"} :
               (fail = {} => k = "http_error") /\ Report(a, fail, k)
         \/ \E a \in Actions, evk \in {"Unsubscribe", "Tick"}, j \in Ids : ReportDuring(a, evk, j)
-        \/ \E b \in BOOLEAN : Stop(b)
+        \/ \E b \in BOOLEAN, lost \in SUBSET Clients : Stop(b, lost)
 
 Spec == Init /\ [][Next]_vars
 
